@@ -25,6 +25,7 @@ type cfgSel struct {
 	ast     int64
 	tsbd    int
 	atoKind int // 0 none, 1 quarter segment, 2 segment-40ms, 3 1.5 segments
+	stopRel int64 // stop_ at AST + stopRel seconds (0 = none)
 }
 
 func atoMS(kind int, segMS int64) int64 {
@@ -100,7 +101,7 @@ func Main(args []string) error {
 					for _, tsbd := range []int{0, 1, 10, -1} {
 						for ak := 0; ak < 4; ak++ {
 							if (snr+int(ast)+tsbd+ak)%2 == 0 || mode == "time" { // half of the product per mode, all for $Time$
-								cfgs = append(cfgs, cfgSel{mode, snr, ast, tsbd, ak})
+								cfgs = append(cfgs, cfgSel{mode, snr, ast, tsbd, ak, 0})
 							}
 						}
 					}
@@ -109,12 +110,16 @@ func Main(args []string) error {
 		}
 	} else {
 		for i, mode := range modes {
-			cfgs = append(cfgs, cfgSel{mode, -1, 0, -1, 0}, cfgSel{mode, -1, 1_699_999_000, 10, 1 + i%3}, cfgSel{mode, 1, 1000, 1, 0})
+			cfgs = append(cfgs, cfgSel{mode, -1, 0, -1, 0, 0}, cfgSel{mode, -1, 1_699_999_000, 10, 1 + i%3, 0}, cfgSel{mode, 1, 1000, 1, 0, 0})
 		}
 		for j := 0; j < 2; j++ {
 			cfgs = append(cfgs, cfgSel{modes[rng.Intn(3)], []int{-1, 1, 5}[rng.Intn(3)], []int64{0, 1000, 1_699_999_000}[rng.Intn(3)],
-				[]int{0, 1, 10, -1, 7}[rng.Intn(5)], rng.Intn(4)})
+				[]int{0, 1, 10, -1, 7}[rng.Intn(5)], rng.Intn(4), 0})
 		}
+	}
+	// C05.stop: a few scenarios with a configured stop time (static MPD afterwards)
+	for i, mode := range modes {
+		cfgs = append(cfgs, cfgSel{mode, -1, []int64{0, 1000, 1_699_999_000}[i], 10, 0, int64(13 + 4*i)})
 	}
 	var jobs []job
 	samples := []any{}
@@ -160,7 +165,12 @@ func Main(args []string) error {
 		segMS := rt.Dur[0] * 1000 / rt.TS
 		ato := atoMS(cs.atoKind, segMS)
 		c := tl.Cfg{Mode: cs.mode, SNR: cs.snr, AST: cs.ast, TSBD: cs.tsbd, AtoMS: ato}
-		emit(tl.HeaderE(idx, a, rt, c, nil))
+		stop := int64(-1)
+		if cs.stopRel > 0 {
+			stop = cs.stopRel
+			c.Extra = []string{fmt.Sprintf("stop_%d", cs.ast+cs.stopRel)}
+		}
+		emit(tl.HeaderE(idx, a, rt, c, tr.E{"stop": stop}))
 		N := int64(rt.N)
 		loopMS := rt.L * 1000 / rt.TS
 		tsbdMS := c.EffTSBD() * 1000
@@ -195,6 +205,11 @@ func Main(args []string) error {
 				for t := av; t < av+segMS && t < av+4000; t += 97 {
 					inst[t] = true
 				}
+			}
+		}
+		if stop > 0 {
+			for _, d := range []int64{-1, 0, 1, 2, 999, 5000, 100_000} {
+				inst[stop*1000+d] = true
 			}
 		}
 		var list []int64
